@@ -26,6 +26,7 @@ type Program struct {
 	ByObj     map[*types.Func]*FuncInfo
 	Contracts *Contracts
 	ModPath   string
+	roMemo    map[*FuncInfo]int
 }
 
 // Load loads all packages of the module rooted at dir with build tag verif.
